@@ -63,6 +63,10 @@ def gen_skeleton(rng, idx):
         alphabet.append(("torch", {"outs": losses, "ins": allp, "retain": retain}))
         alphabet.append(("torch", {"outs": feats, "ins": shared, "retain": retain}))
         alphabet.append(("backward", {"tensors": feats[:1], "inputs": shared, "k": None, "retain": retain}))
+        # follow-ups through ONE head at a time (first and last task): every head is freed, not only some
+        for li in sorted({0, len(losses) - 1}):
+            if tasks[li]:
+                alphabet.append(("torch", {"outs": [losses[li]], "ins": tasks[li], "retain": retain}))
         # follow-ups rooted INSIDE a head: an intermediate tensor of a parameter-only branch
         for (pp, q) in getattr(prog, "probes", [])[:2]:
             alphabet.append(("torch", {"outs": [pp], "ins": [q], "retain": retain}))
